@@ -10,7 +10,8 @@
          `classInit`     pyglove/core/symbolic/object.py Object.__init__ (648-725) reached through
                          class_wrapper.py _sym_init (132-142) and _call_init (191-205)
          `symInitArgs`   Object.sym_init_args (the `_sym_attributes` dict after Schema.apply)
-  Values are opaque scalars (`Int`); MISSING_VALUE is not a value (documented precondition).
+  Values are opaque scalars (`Int`; codes ≤ 0 stand for falsy Python values: 0, None, '', False, []);
+  MISSING_VALUE is not a value (documented precondition).
   Every value spec is `Any()` (no auto_typing conversion is modelled), so `apply` is the identity
   except for the List spec of the `*args` field, which rejects a scalar.
 -/
@@ -39,6 +40,11 @@ def kset : KW → Name → V → KW
 def kdel (m : KW) (k : Name) : KW := m.filter (fun p => p.1 != k)
 
 def keys (m : KW) : List Name := m.map (·.1)
+
+/-- Later values replace earlier ones; new names are appended. -/
+def mergeKw : KW → KW → KW
+  | m, [] => m
+  | m, (k, v) :: r => mergeKw (kset m k v) r
 
 /-! ### Signatures and calls -/
 
@@ -348,7 +354,7 @@ def parseOverrides (fix29 : Bool) (F : Functor) (c : Call) (override? ignore? : 
         else match st.slot with
           | .none => .ok ⟨l, kw2⟩
           | .list xs => .ok ⟨l ++ xs, kw2⟩
-          | .scalar v => if v = 0 then .ok ⟨l, kw2⟩ else .error .typeError   -- extend(<int>)
+          | .scalar v => if v ≤ 0 then .ok ⟨l, kw2⟩ else .error .typeError   -- falsy: skipped; else extend(<int>)
       else .ok ⟨l, kw2⟩
 
 /-- `Functor.__call__` for a functor made from a function: `_call` forwards to the function,
@@ -409,6 +415,13 @@ def callInitCall (o : SymObject) : Call :=
   let s := o.sig
   ⟨(withDefaults o.fields s.pos).map (·.2) ++ o.va.getD [],
    withDefaults o.fields s.kwonly ++ o.fields.filter fun p => !(s.names.contains p.1)⟩
+
+/-- `obj.rebind(**updates)` on a class wrapper: the symbolic fields are updated, then `_on_bound`
+resets the instance and re-runs the user's `__init__` (class_wrapper.py `_on_bound`, `_call_init`). -/
+def objectRebind (o : SymObject) (upd : KW) : SymObject := { o with fields := mergeKw o.fields upd }
+
+/-- What the user's `__init__` sees when the wrapper (re-)initialises it. -/
+def initOutcome (o : SymObject) : Except PyErr Assignment := pyCall o.sig (callInitCall o)
 
 /-- `Cls(*args, **kwargs)` for `Cls = pg.symbolize(UserClass)`: what the user's `__init__` sees. -/
 def classInit (s : Sig) (c : Call) : Except PyErr Assignment :=
@@ -472,11 +485,6 @@ surplus positionals and unknown keywords are dropped (documented option of the f
 def dropExtras (s : Sig) (c : Call) : Call :=
   ⟨if s.varargs.isNone then c.args.take s.pos.length else c.args,
    if s.varkw.isNone then c.kwargs.filter (fun p => s.names.contains p.1) else c.kwargs⟩
-
-/-- Later values replace earlier ones; new names are appended. -/
-def mergeKw : KW → KW → KW
-  | m, [] => m
-  | m, (k, v) :: r => mergeKw (kset m k v) r
 
 def mergeNamed (n1 n2 : Named) : Named :=
   ⟨mergeKw n1.named n2.named, if n2.va.isEmpty then n1.va else n2.va, mergeKw n1.extra n2.extra⟩
